@@ -52,8 +52,14 @@ ChainsKnownOK(c) == HasChain(c) => \A i \in 1..Len(c.chain) :
    /\ ChainShapeOK(c, c.chain[i]) /\ CallbacksSound(c, c.chain[i]) /\ CallbacksCompleteFixed(c, c.chain[i]) /\ ChainFinalIsObs(c, c.chain[i])
    /\ (CH!ChainIdeal(c.chain[i]) \/ CH!ChainKnownD12(c.chain[i]))
 
+\* the observational form of Scan!ResidualClean for scans whose content is not modelled (the memory of a process): whatever the
+\* earlier scan was and however it ended, the next scan of a buffer reports what a fresh scanner reports, and the scan flags
+\* are still the caller's
+AfterHistoryOK(c) == c.after = c.fresh /\ c.flags_changed = 0 /\ c.after_ret = c.fresh_ret
+
 CaseOK(c) ==
   CASE c.kind = "text" -> ObsOK(c.pat, c.mods, c.buf, c.obs)
+    [] c.kind = "afterhistory" -> AfterHistoryOK(c)
     [] c.kind = "re"   -> StringObsOK(c) /\ ChainsStrictOK(c)
     [] c.kind = "matches" -> c.obs = MatchesOp(c.ast, c.buf, [nocase |-> c.nocase, dotall |-> c.dotall, wide |-> FALSE])
     [] c.kind = "rescanerr" -> FALSE      \* a scan of a small buffer with a small expression must end with a verdict, not an error
